@@ -111,8 +111,14 @@ func runProperty(w *World, prop string, cfg RunConfig, only string) *checkOutcom
 			r := VerifyFunc(w, fi)
 			name := pi.Name + "." + key
 			if r.Err != nil {
-				// an engine error matters only if the function could carry obligations of this property
-				oc.errs = append(oc.errs, r.Err.Error())
+				// an engine error (unsupported construct, lost anchor) leaves this function unverified; the
+				// property is undecided only if the function's contract carries clauses of this property
+				// (run-time check obligations exist in every function, so the run tags always count)
+				if specMentionsTag(fi.Spec, prop) || hasTag(pi.Contracts.RunTags, prop) {
+					oc.errs = append(oc.errs, r.Err.Error())
+				} else {
+					oc.warnings["not verified in this run (engine error, no clause of this property): "+name] = true
+				}
 				continue
 			}
 			tagged := 0
@@ -436,3 +442,31 @@ type ReplayResult struct {
 }
 
 func tryReplay(w *World, o *Obligation, repo string) *ReplayResult { return replayObligation(w, o, repo) }
+
+func specMentionsTag(sp *FuncSpec, p string) bool {
+	if sp == nil {
+		return false
+	}
+	chk := func(cs []*Clause) bool {
+		for _, c := range cs {
+			if hasTag(c.Tags, p) {
+				return true
+			}
+		}
+		return false
+	}
+	if chk(sp.Requires) || chk(sp.Ensures) || chk(sp.Assumes) || hasTag(sp.ModTags, p) || hasTag(sp.NoPanic, p) {
+		return true
+	}
+	for _, l := range sp.Loops {
+		if chk(l.Invariants) {
+			return true
+		}
+	}
+	for _, a := range sp.AtCall {
+		if chk(a.Asserts) {
+			return true
+		}
+	}
+	return false
+}
